@@ -372,14 +372,14 @@ func c18PoolGen(rt *rapid.T) c18Case {
 		P: rapid.SampledFrom([]int{0, 1, 2, 3, 3, 4}).Draw(rt, "maxage"),
 	}
 	if rapid.IntRange(0, 3).Draw(rt, "scaleFreeMaxAge") == 0 {
-		c.X = rapid.IntRange(1, c18DurCodes).Draw(rt, "maxageCode")
+		c.X = c18DrawDurCode(rt, "maxageCode")
 	}
 	if rapid.IntRange(0, 2).Draw(rt, "differentSettings") == 0 {
 		c.D = true
 		c.N2 = rapid.IntRange(1, 3).Draw(rt, "limit2")
 		c.P2 = rapid.SampledFrom([]int{0, 1, 2, 3, 4}).Draw(rt, "maxage2")
 		if rapid.IntRange(0, 3).Draw(rt, "scaleFreeMaxAge2") == 0 {
-			c.X2 = rapid.IntRange(1, c18DurCodes).Draw(rt, "maxageCode2")
+			c.X2 = c18DrawDurCode(rt, "maxageCode2")
 		}
 	}
 	c.Gs = c18GenGs(rt, 5, func(rt *rapid.T, burst bool) c18Op {
